@@ -165,3 +165,111 @@ class Strings(Contract):
         out = {k: (k not in failed) for k in names}
         out['details'] = len(obs['bad']) == 0
         return out
+
+
+# ==========================================================================================================
+# Deductive part: symbolic codes, symbolic digit strings (fxpv.strs.SStr)
+# ==========================================================================================================
+from fxpv import core as _core
+from fxpv.core import SNum as _SNum
+from specs.core import M, B, And, eq, pat
+
+
+def _sym_bits(c, n):
+    """expected n-character binary image of code c: plain str (native) or list of string items (symbolic)"""
+    if isinstance(c, _SNum):
+        from fxpv import strs
+        p = _core.CTX.mod(c.t, 1 << n)
+        bits = _core.CTX.bits(p, n)
+        return [strs.Dig(2, bits[i], True, (p, i)) for i in range(n - 1, -1, -1)]
+    return list(spec_bits(c, n))
+
+
+def _sym_hex(c, n):
+    w = (n + 3) // 4
+    if isinstance(c, _SNum):
+        from fxpv import strs
+        p = _core.CTX.mod(c.t, 1 << n)
+        out = []
+        for j in range(w - 1, -1, -1):
+            q = _core.CTX.div(p, 16 ** j) if j > 0 else p
+            out.append(strs.Dig(16, _core.CTX.mod(q, 16), True, (p, j)))
+        return out
+    return list(format(c % (1 << n), '0%dX' % w))
+
+
+def _with_point(items, n, f):
+    items = list(items)
+    if 0 < f < n:
+        return items[:n - f] + ['.'] + items[n - f:]
+    if f == 0:
+        return items + ['.']
+    if f == n:
+        return ['.'] + items
+    raise ValueError(f)
+
+
+def _same_string(got, want_items):
+    """got (str or SStr) equals the expected item list"""
+    from fxpv import strs
+    if isinstance(got, strs.SStr) or any(not isinstance(i, str) for i in want_items):
+        want = strs.mk(want_items)
+        r = (got == want) if isinstance(got, strs.SStr) else (want == got)
+        return B(r) if not isinstance(r, bool) else r
+    return got == ''.join(want_items)
+
+
+@contract
+class StringsProof(Contract):
+    """Deductive part of C11 (codes symbolic, all codes of the format at once): bin() with / without binary point
+    and prefix and hex() are the specified digit strings of the n_word-bit two's-complement image; parsing the
+    rendered binary / hex string (raw mode any width, value mode n_word <= 53) through the constructor, set_val
+    and from_bin restores the code.  np.binary_repr, int(str, base), bin() and '{:0{w}X}'.format are assumed contracts."""
+    name = 'objects:Fxp.bin/hex + parsing [symbolic codes]'
+    layer = 5
+    uses = ('utils:wrap', 'utils:clip', 'objects:Fxp._get_conv_factor', 'objects:Fxp._round', 'objects:Fxp._overflow_action')
+    props = {'*': ['C11'], 'render_bin': ['C11', 'C18'], 'render_hex': ['C11', 'C18'], 'parse_raw_bin': ['C11', 'C18'], 'parse_raw_hex': ['C11', 'C18']}
+    conditional_clauses = ('parse_value_bin', 'parse_value_hex', 'parse_from_bin', 'render_bin_dot')
+
+    def configs(self, tier):
+        words = (2, 3, 4, 8, 16, 33, 64) if tier == 'quick' else (2, 3, 4, 5, 7, 8, 9, 12, 16, 31, 32, 33, 53, 63, 64, 65, 128)
+        for n in words:
+            for s in (True, False):
+                for f in sorted({0, n // 2, n}):
+                    yield dict(signed=s, n_word=n, n_frac=f)
+
+    def inputs(self, cfg, D):
+        return {'c': codes_in(D, 'c', 1, cfg['signed'], cfg['n_word'])}
+
+    def run(self, cfg, P, inp):
+        s, n, f = cfg['signed'], cfg['n_word'], cfg['n_frac']
+        x = make_fxp(P, s, n, f, codes=inp['c'], shape=(), vdtype=float)
+        o = {'bin': x.bin(), 'bin_dot': x.bin(frac_dot=True), 'bin_pref': x.bin(prefix='0b'), 'hex': x.hex()}
+        o['raw_bin'] = P.Fxp(o['bin_pref'], s, n, f, raw=True).val
+        o['raw_hex'] = P.Fxp(o['hex'], s, n, f, raw=True).val
+        z = P.Fxp(0.0, s, n, f); z.from_bin(o['bin'], raw=True)
+        o['from_bin'] = z.val
+        if n <= 53:
+            o['val_bin'] = P.Fxp(o['bin_pref'], s, n, f).val
+            o['val_hex'] = P.Fxp(o['hex'], s, n, f).val
+        return o
+
+    def post(self, cfg, inp, obs):
+        if obs['exc']:
+            return {}
+        s, n, f = cfg['signed'], cfg['n_word'], cfg['n_frac']
+        c = inp['c'][0]
+        bits = _sym_bits(c, n)
+        out = {'render_bin': _same_string(obs['bin'], bits),
+               'render_bin_dot': _same_string(obs['bin_dot'], _with_point(bits, n, f)),
+               'render_bin_prefix': _same_string(obs['bin_pref'], ['0', 'b'] + bits),
+               'render_hex': _same_string(obs['hex'], ['0', 'x'] + _sym_hex(c, n))}
+        cm = M(c)
+        one = lambda k: M(elems(obs[k])[0])
+        out['parse_raw_bin'] = eq(one('raw_bin'), cm)
+        out['parse_raw_hex'] = eq(one('raw_hex'), cm)
+        out['parse_from_bin'] = eq(one('from_bin'), cm)
+        if n <= 53:
+            out['parse_value_bin'] = eq(one('val_bin'), cm)
+            out['parse_value_hex'] = eq(one('val_hex'), cm)
+        return out
